@@ -46,13 +46,23 @@ class _System:
                       bias_init=lambda x: _wgen(ws + 11 * i + 1, x.shape) * 4.0)
             if delay is not None:
                 kw["delay_init"] = lambda x: torch.randint(0, c["delay_k"] + 1, tuple(x.shape), generator=torch.Generator().manual_seed(ws + 11 * i + 2)).float() * dt
+            late = cfg.get("via_setters") and delay is not None
+            if late:
+                # the documented route: built with a maximum delay of 0 ("registers the delay parameter"), widened through the synapse's setter
+                init = kw.pop("delay_init")
+                kw["delay"] = 0.0
             if kind == "conv":
-                return nn_.Conv2D(3, 3, 1, 2, dt, 2, **kw)
-            if kind == "direct":
-                return nn_.LinearDirect((nin,), dt, **kw)
-            if kind == "lateral":
-                return nn_.LinearLateral((nin,), dt, **kw)
-            return nn_.LinearDense((nin,), (nout,), dt, **kw)
+                out = nn_.Conv2D(3, 3, 1, 2, dt, 2, **kw)
+            elif kind == "direct":
+                out = nn_.LinearDirect((nin,), dt, **kw)
+            elif kind == "lateral":
+                out = nn_.LinearLateral((nin,), dt, **kw)
+            else:
+                out = nn_.LinearDense((nin,), (nout,), dt, **kw)
+            if late:
+                out.synapse.delay = delay
+                out.delay = init(out.delay)
+            return out
 
         def neuron(j, shape):
             k = cfg["neurons"][j]
@@ -148,6 +158,16 @@ class _System:
                 red = observe.EventReducer(dt, lambda x: x.bool(), "inf", duration=3 * dt, inplace=inplace)
             else:
                 red = observe.CumulativeTraceReducer(dt, 12.0, 1.0, True, duration=dt, inplace=inplace)
+            if cfg.get("via_setters") and red.duration > 0:
+                d = red.duration
+                red = type(red).__new__(type(red))      # same reducer, constructed single-slot and widened through the duration setter
+                if mk == "ema":
+                    observe.EMAReducer.__init__(red, dt, 0.3, duration=0.0, inplace=inplace)
+                elif mk == "event":
+                    observe.EventReducer.__init__(red, dt, lambda x: x.bool(), "inf", duration=0.0, inplace=inplace)
+                else:
+                    observe.CumulativeTraceReducer.__init__(red, dt, 12.0, 1.0, True, duration=0.0, inplace=inplace)
+                red.duration = d
             self.monitors.append(observe.OutputMonitor(red, self.neurons[0]))
         self.classifier = learn.MaxRateClassifier(tuple(self.neurons[0].shape), 3, decay=0.05) if cfg["classifier"] else None
 
@@ -270,7 +290,7 @@ class CheckpointWorld(World):
         cfg = {"kind": kind, "dt": rc.choice(DTS), "B": rc.choice([1, 1, 2]), "wseed": rc.randrange(1 << 30), "inplace": rc.random() < 0.5,
                "width": rc.choice([2, 3]), "nin": rc.choice([2, 3]), "trace": rc.choice(["cumulative", "nearest"]), "tdelayed": rc.random() < 0.5,
                "combine": rc.choice(["sum", "mean", "max"]), "lateral": rc.random() < 0.5,
-               "monitors": rc.choice([[], [], ["ema"], ["ca"], ["event"], ["trace", "ema"], ["v_pass"], ["v_ema", "v_ca"]]), "classifier": rc.random() < 0.3, "container": rc.random() < 0.5}
+               "monitors": rc.choice([[], [], ["ema"], ["ca"], ["event"], ["trace", "ema"], ["v_pass"], ["v_ema", "v_ca"]]), "classifier": rc.random() < 0.3, "container": rc.random() < 0.5, "via_setters": stream(seed, "via").random() < 0.3}
         nconn = {"serial": 1, "biclique": 2, "recurrent": 3}[kind]
         cfg["conns"] = [{"skind": rc.choice(["delta", "deltaplus", "exp", "dexp"]), "delay_k": rc.choice([None, None, 1, 3]), "bias": rc.random() < 0.5, "tau": rc.choice([2.0, 5.0])}
                         for _ in range(nconn)]
@@ -304,7 +324,7 @@ class CheckpointWorld(World):
     def execute(self, desc, ctx):
         cfg = desc["config"]
         facts = {"kind": cfg["kind"], "trainer": cfg["trainer"], "neurons": "/".join(cfg["neurons"][: 1 if cfg["kind"] == "serial" else 2]), "ckind": cfg["ckind"],
-                 "inplace": cfg["inplace"], "monitors": ",".join(cfg["monitors"]), "classifier": cfg["classifier"], "container": bool(cfg.get("container")),
+                 "inplace": cfg["inplace"], "monitors": ",".join(cfg["monitors"]), "classifier": cfg["classifier"], "container": bool(cfg.get("container")), "via_setters": bool(cfg.get("via_setters")),
                  "delays": [c["delay_k"] for c in cfg["conns"]], "syn": [c["skind"] for c in cfg["conns"]]}
         ops = desc["ops"]
         T = len(ops)
